@@ -251,7 +251,13 @@ const RT = {
   asF(x) {
     if (typeof x === 'number') return fpLit(x);
     if (x instanceof SNum && x.k === 'f') return x.t;
-    if (x instanceof SNum && x.k === 'i') { this.st.flags.int2fp = true; return '((_ to_fp 11 53) RNE (to_real ' + this.exactI(x).t + '))'; }
+    if (x instanceof SNum && x.k === 'i') {
+      // z3 has no precise model of to_fp on a symbolic real (it answers with bogus models), so integers that fit go through a bit-vector
+      this.st.flags.int2fp = true;
+      const e = this.exactI(x);
+      if (e.lo >= -(1n << 64n) && e.hi <= (1n << 64n)) return '((_ to_fp 11 53) RNE ((_ int2bv 66) ' + e.t + '))';
+      return '((_ to_fp 11 53) RNE (to_real ' + e.t + '))';
+    }
     if (typeof x === 'boolean') return fpLit(x ? 1 : 0);
     if (x === undefined) return fpLit(NaN);
     if (x === null) return fpLit(0);
